@@ -27,6 +27,7 @@ THEOREMS = {
     "C13_model_is_source_sparse_cover_generate_and_unmask_initial_plate": "the translations of InitialRetrospectivePlateGenerator.generate_and_unmask_initial_plate (core.py, = fully-observed check then the inner method, for EVERY inner method) and of SparseCoverPlateGenerator._generate_and_unmask_initial_plate (per-sample loop, `while len(remaining_treatments) > 0` on explicit fuel, reveal branch, plate names, Screen(...)) compose to the model sparse_cover for every screen and answer stream whenever fuel > number of recorded answers or fuel > number of distinct treatment ids",
     "C13_model_is_source_sparse_cover_terminates": "with #distinct-treatment-ids + 1 units of fuel the translated SparseCover source returns Ok on every fully observed screen for every answer stream obeying the choice contract with #samples + #distinct ids answers (the fuel hypothesis discharged by C13_sparse_cover_terminates / _loop_progress)",
     "C13_model_is_source_filter_dataset_to_treatments_that_appear_in_at_least_one_combo": "the translation of the whole function filter_dataset_to_treatments_that_appear_in_at_least_one_combo (data.py) equals combo_filter for every control name, arity and screen",
+    "C13_model_is_source_pairwise_generate_plates": "the translation of the whole method PairwisePlateGenerator._generate_plates (combination / single-agent split, np.unique with counts, anchor branch with argsort / both floor divisions / permutations / array_splits / setdiff1d, plain branch, the nested loops filling group_lookup, np.vectorize(group_lookup.get), n_control and its store, row sort, hstack with sample ids, np.unique(axis=0), labelling loop, Screen(...), the `is None` return, the per-sample loop assigning single-agent experiments with its raise and rng.choice, second Screen(...), combine) equals the model pairwise for every control name, subset / anchor size, screen and answer stream whose first answer, when anchors are requested, is np.argsort's (positions within the unique-id array); through the translated wrapper it equals generate_plates (GPairwise ..)",
     "C13_sample_segregating_shape": "repaired logic (fixed=true), every permutation answer a permutation of the sample's indices: every unobserved output plate holds one sample and at most max experiments",
     "C13_sample_segregating_even": "repaired logic (fixed=true), permutation contract: any two unobserved output plates holding experiments of the same sample differ in size by at most one (the plates of a sample are the np.array_split chunks)",
     "C13_sample_segregating_shape_refuted": "code as found (fixed=false): witness A,A,B,B,B with max 3 gives one plate '' of 5 > 3 experiments holding 2 samples",
@@ -88,7 +89,19 @@ EXPLANATION = ("Models shared with C11 (Model/Retro.v, Pairwise.v, RetroInit.v);
                "rng.permutation(..) as an argument of another call, bound where Python evaluates it; cfg while_cond = `while c:` as "
                "`while True: if not c: break`), Lib/PyRt.v, and the primitives of the configurations C13_SAMPLE_SEG, C13_FIXED_SIZE, "
                "C13_OPTIMAL_SIZE, C13_NPLATE_SAMPLE_ID, C13_NPLATE, C13_ENSEMBLE, C13_PLATE_PERMUTATION, C13_SPARSE_COVER, "
-               "C13_INITIAL_WRAPPER, C13_COMBO_FILTER (meanings: last sections of Model/Retro.v and Model/RetroInit.v), namely: "
+               "C13_INITIAL_WRAPPER, C13_COMBO_FILTER, C13_PAIRWISE (meanings: last sections of Model/Retro.v, Model/RetroInit.v and "
+               "Model/Pairwise.v; proofs of the Pairwise link in Proofs/C13SourcePairwise.v; its hypothesis argsort_ok: with anchor_size > 0 "
+               "the first recorded answer is np.argsort's and the positions it uses are positions of the unique-id array - numpy's "
+               "argsort returns a permutation of the positions, and Python calls it before anything else can raise; Pairwise "
+               "primitives: screen.treatment_ids == SENTINEL row by row, np.any(axis=1), v.any(), np.unique(ids, return_counts=True) on "
+               "the re-encoded combination screen (ids = ranks of its keys), np.argsort(-counts) = the next recorded answer, a[:n], "
+               "u[idx] (IndexError outside), len(a) // subset_size (ZeroDivisionError at 0), np.setdiff1d on sorted unique arrays, "
+               "np.vectorize(d.get)(ids) (None when absent), np.sum(g == SENTINEL), rng.choice(range(n), size=k, replace=True) = the next "
+               "recorded answer, refused unless of length k, g[g == SENTINEL] = vals (row-major fill, ValueError on a count mismatch), "
+               "np.sort(g, axis=1) (TypeError on None), sample_ids[:, np.newaxis], np.hstack, np.unique(axis=0) = sorted distinct rows, "
+               "(a == t).all(axis=1), names[mask] = f'generated_plate_{k}' and names[mask] = vals (IndexError / ValueError on a length "
+               "mismatch), np.unique(sample_names), (sample_names == nm).sum(), np.unique(plate_names[sample_names == nm]), "
+               "rng.choice(names, size=n, replace=True) = the next recorded answer, refused unless n names of the offered array), namely: "
                "screen.unique_sample_ids = sorted unique names; np.arange(size)[sample_ids == i] / [plate.selection_vector] / "
                "np.arange(v.size)[m] (IndexError on a length mismatch) = positions of the true entries; math.ceil(a/float(b)) = ceiling "
                "of the quotient, ZeroDivisionError at 0; rng.permutation / rng.choice(a, n, replace=False) = the next recorded answer "
